@@ -18,11 +18,11 @@ Shapes == << <<>>, <<1>>, <<2>>, <<3>>, <<1, 1>>, <<1, 2>>, <<1, 3>>, <<2, 2>>, 
 Orgs == { [id |-> 1, name |-> S1("x"), k |-> IV(1), lead |-> IV(2)], [id |-> 2, name |-> NULL, k |-> NULL, lead |-> NULL] }
 PostInfos == { [id |-> 1, tag |-> S1("p")], [id |-> 2, tag |-> NULL] }
 AuthorInfos == { [id |-> 1, tag |-> S1("a")], [id |-> 2, tag |-> S1("p")] }
-Authors == { [id |-> 1, name |-> S1("ann"), age |-> IV(30), rank |-> IV(1), org |-> IV(1), info |-> IV(1), home |-> IV(2)],
-             [id |-> 2, name |-> S1("bob"), age |-> NULL, rank |-> IV(2), org |-> IV(2), info |-> NULL, home |-> IV(1)],
-             [id |-> 3, name |-> NULL, age |-> IV(5), rank |-> IV(3), org |-> NULL, info |-> IV(2), home |-> IV(1)],
-             [id |-> 4, name |-> S1("cy"), age |-> IV(1), rank |-> IV(1), org |-> IV(1), info |-> IV(2), home |-> IV(1)],
-             [id |-> 5, name |-> S1("ann"), age |-> IV(0), rank |-> IV(2), org |-> IV(2), info |-> IV(1), home |-> IV(2)] }
+Authors == { [id |-> 1, name |-> S1("ann"), age |-> IV(30), rank |-> IV(1), org |-> IV(1), info |-> IV(1), home |-> IV(2), boss |-> IV(2)],
+             [id |-> 2, name |-> S1("bob"), age |-> NULL, rank |-> IV(2), org |-> IV(2), info |-> NULL, home |-> IV(1), boss |-> IV(3)],
+             [id |-> 3, name |-> NULL, age |-> IV(5), rank |-> IV(3), org |-> NULL, info |-> IV(2), home |-> IV(1), boss |-> NULL],
+             [id |-> 4, name |-> S1("cy"), age |-> IV(1), rank |-> IV(1), org |-> IV(1), info |-> IV(2), home |-> IV(1), boss |-> IV(1)],
+             [id |-> 5, name |-> S1("ann"), age |-> IV(0), rank |-> IV(2), org |-> IV(2), info |-> IV(1), home |-> IV(2), boss |-> IV(4)] }
 Titles == <<S1("a"), S1("b"), NULL, S1("a%")>>
 Ns == <<IV(1), IV(-3), NULL, IV(0), IV(2)>>
 AuthorOf(i) == LET r == (i + Inst) % 7 IN IF r = 1 \/ r = 6 THEN NULL ELSE IV(IF r = 0 THEN 1 ELSE r - 1)
@@ -50,6 +50,7 @@ PostAtoms == { Cmp("eq", Id0("n"), IntL(1)), Cmp("eq", Id0("title"), SL("a")), C
                Cmp("eq", P("author", <<"home", "name">>), NullL), Cmp("eq", P("author", <<"home", "k">>), IntL(1)),
                Bool("or", Cmp("eq", P("author", <<"home", "name">>), SL("x")), Cmp("eq", Id0("n"), IntL(1))),
                Cmp("eq", P("author", <<"org", "lead", "name">>), P("author", <<"name">>)),
+               Cmp("eq", P("author", <<"boss", "boss", "name">>), SL("ann")), Cmp("ne", P("author", <<"boss", "rank">>), P("author", <<"rank">>)),
                Bool("and", Cmp("eq", P("info", <<"tag">>), SL("p")), Cmp("ne", P("author", <<"info", "tag">>), SL("p"))),
                Coll(Id0("comments"), "any", None), Coll(Id0("authors"), "any", None), Coll(P("author", <<"posts">>), "any", None),
                Coll(P("author", <<"org", "authors">>), "any", Lam(eV, Cmp("gt", P("e", <<"rank">>), IntL(2)))) }
@@ -70,6 +71,10 @@ PostBrackets == { Coll(Id0("comments"), q, Lam(cV, HC)) : q \in {"any", "all"} }
            \cup { Coll(Id0("authors"), q, Lam(eV, HE)) : q \in {"any", "all"} }
            \cup { Coll(P("author", <<"posts">>), q, Lam(pV, HP)) : q \in {"any", "all"} }
 AuthorAtoms == { Cmp("eq", P("home", <<"name">>), NullL),
+                 \* a self-referential relationship navigated one, two and three times
+                 Cmp("eq", P("boss", <<"name">>), SL("bob")), Cmp("eq", P("boss", <<"boss", "name">>), NullL),
+                 Cmp("eq", P("boss", <<"boss", "boss", "name">>), NullL), Cmp("gt", P("boss", <<"boss", "boss", "rank">>), IntL(1)),
+                 Bool("or", Cmp("eq", P("boss", <<"boss", "boss", "name">>), SL("ann")), Coll(P("boss", <<"posts">>), "any", None)),
                  \* paths that come back to the model they started from, and two routes into one table
                  Cmp("eq", P("home", <<"lead", "name">>), SL("bob")), Cmp("ne", P("org", <<"lead", "age">>), IntL(30)),
                  Bool("or", Cmp("eq", P("home", <<"lead", "name">>), Id0("name")), Cmp("eq", P("org", <<"lead", "name">>), NullL)), Cmp("eq", Id0("name"), SL("ann")), Cmp("eq", Id0("age"), NullL), Cmp("eq", P("org", <<"name">>), SL("x")),
